@@ -11,13 +11,15 @@ open Sfs
 /-- nearest_error: the binary64 nearest to a positive rational in the normal range is within relative error 2^-53. -/
 theorem nearest_error (q : Rat) (hlo : (1 : Rat) / ((2 ^ 1022 : Nat) : Rat) ≤ q) (hhi : q < ((2 ^ 1023 : Nat) : Rat)) :
     ∃ v : Rat, f64OfBits (f64BitsOfRatNonneg q) = .fin v ∧ absRat (v - q) * ((2 ^ 53 : Nat) : Rat) ≤ q := by
-  sorry
+  obtain ⟨v, h1, h2, _⟩ := d15_nearest q hlo hhi
+  exact ⟨v, h1, h2⟩
 
 /-- fifteen_digits_print_back: a decimal with at most 15 significant digits survives decimal → binary64 → decimal at the
     same precision (`p ≤ 300` keeps `10^-p` in the normal range). -/
 theorem fifteen_digits_print_back (M p : Nat) (hM : M < 10 ^ 15) (hp : p ≤ 300) :
     fmtFixed (f64BitsOfRatNonneg ((M : Rat) / ((10 ^ p : Nat) : Rat))) p = fmtRatFixed ((M : Rat) / ((10 ^ p : Nat) : Rat)) p := by
-  sorry
+  obtain ⟨h1, h2, _⟩ := d15_print_back M p hM hp
+  rw [h1, h2]
 
 /-- text_npy_text: for a finite value whose printed form at precision `p` has at most 15 significant digits, re-reading
     the printed token and printing the result again at the same precision gives the same token — text → npy → text is the
@@ -25,7 +27,8 @@ theorem fifteen_digits_print_back (M p : Nat) (hM : M < 10 ^ 15) (hp : p ≤ 300
 theorem text_npy_text (x p : Nat) (q : Rat) (hx : x < 2 ^ 64) (hf : f64OfBits x = .fin q)
     (h15 : roundedScaled (absRat q) p < 10 ^ 15) (hp : p ≤ 300) (b' : Nat) (hb : parseF64 (fmtFixed x p) = some b') :
     fmtFixed b' p = fmtFixed x p := by
-  sorry
+  rw [text_value_roundtrip x p q hx hf] at hb
+  exact d15_text_npy_text x p q hf h15 hp b' (Option.some.inj hb).symm
 
 /-! non-vacuity: 0.1 + 0.2 printed at precision 3 and 15; 1e-5 at precision 10 -/
 example : (parseF64 (fmtFixed 0x3fd3333333333334 3)).map (fun b => fmtFixed b 3) = some (fmtFixed 0x3fd3333333333334 3) ∧
